@@ -687,6 +687,28 @@ def _coll_oracle(interp, env, f, args, t, bb, path):
                 return TOP
             interp.write_ref(env, a0, Agg(v0.kind, v0.name, v0.variant, flds))
             return unit
+        if nm in ("reverse", "swap", "rotate_left", "rotate_right") and v0.kind == "slice" and v0.fields and all(isinstance(x, HRef) for x in v0.fields):
+            # a mutable sub-slice of a vector (chunks_mut, split_at_mut, ...): permute the contents of the cells it refers to
+            vals_ = [href_get(interp, env, x) for x in v0.fields]
+            if nm == "reverse":
+                nv_ = vals_[::-1]
+            elif nm == "swap" and all(isinstance(x, int) and not isinstance(x, bool) for x in args[1:3]):
+                if max(args[1], args[2]) >= len(vals_):
+                    return "DIVERGE"
+                nv_ = list(vals_)
+                nv_[args[1]], nv_[args[2]] = nv_[args[2]], nv_[args[1]]
+            elif nm in ("rotate_left", "rotate_right") and isinstance(args[1], int) and not isinstance(args[1], bool):
+                k_ = args[1]
+                if k_ > len(vals_):
+                    return "DIVERGE"
+                if nm == "rotate_right":
+                    k_ = len(vals_) - k_
+                nv_ = vals_[k_:] + vals_[:k_]
+            else:
+                return TOP
+            for r_, x_ in zip(v0.fields, nv_):
+                href_set(interp, env, r_, x_)
+            return unit
         if nm in ("first", "last") and len(args) == 1:
             return (some(v0.fields[0 if nm == "first" else -1]) if v0.fields else NONE)
         if nm == "is_empty":
@@ -865,6 +887,23 @@ def _coll_oracle(interp, env, f, args, t, bb, path):
             return Agg("itertools-chunks", None, None, [It(xs_[i_:i_ + args[1]]) for i_ in range(0, len(xs_), args[1])])
         if dk == "itertools::Itertools::collect_vec":
             return new_vec(interp, list(it.items))
+        if dk in ("itertools::Itertools::dedup", "itertools::Itertools::unique") and len(args) == 1:
+            out_ = []
+            for x in list(it.items):
+                dup_ = False
+                for y in (out_[-1:] if dk.endswith("dedup") else out_):
+                    r_ = veq(interp, env, y, x)
+                    if r_ is TOP:
+                        return TOP
+                    dup_ = dup_ or r_
+                if not dup_:
+                    out_.append(x)
+            return It(out_)
+        if dk in ("itertools::Itertools::exactly_one", "itertools::Itertools::at_most_one") and len(args) == 1:
+            xs_ = list(it.items)
+            if dk.endswith("exactly_one"):
+                return Agg("adt", "core::result::Result", "Ok", [xs_[0]]) if len(xs_) == 1 else Agg("adt", "core::result::Result", "Err", [Sym("not-exactly-one")])
+            return Agg("adt", "core::result::Result", "Ok", [some(xs_[0]) if xs_ else NONE]) if len(xs_) <= 1 else Agg("adt", "core::result::Result", "Err", [Sym("more-than-one")])
         if dk in ("itertools::Itertools::sorted_by_key", "itertools::Itertools::sorted_by_cached_key", "itertools::Itertools::sorted_unstable_by_key") and len(args) == 2:
             xs_ = list(it.items)
             ks_ = []
